@@ -23,10 +23,10 @@ def both(prog, lines):
 
 
 def run(tier, seed):
-    return run_kernel_prop("C07", tier, seed, ["ShuttleProofs.C07"], "ShuttleProofs.C07Audit", None,
-                           ["ShuttleProofs/C07.lean", "ShuttleModel/Storage.lean"], both,
+    return run_kernel_prop("C07", tier, seed, ["ShuttleProofs.C07", "ShuttleProofs.C07Join"], "ShuttleProofs.C07Audit", None,
+                           ["ShuttleProofs/C07.lean", "ShuttleProofs/C07Join.lean", "ShuttleModel/Storage.lean"], both,
                            "storage theorems (init once, FIFO destruction, tombstones, termination with late inits), the model's TLS code refines the storage model, thread_fn order, "
-                           "join only when finished, unique ids, closure runs once; scope returns when the scoped closures have returned (their TLS destructors may still run: as in the code); "
+                           "join only when finished (join_returns_only_when_finished_loop / joinWait_segment: the wait loop returns only through a set_waiter that saw the target Finished, whatever else unblocks the joiner), unique ids, closure runs once; scope returns when the scoped closures have returned (their TLS destructors may still run: as in the code); "
                            "join values and thread names are not modelled",
                            profiles=["scope", "tls", "kernel", "stdmix", "chan"], per_quick=100, lemma_prefixes=("Storage", "Thread", "Tls"))
 
